@@ -88,7 +88,12 @@ func c13Track(p *h.C13Pos, ll, dl int, forced bool) {
 func c13GenHistory(t *rapid.T, maxOps int) c13Case {
 	var ops []c13Op
 	var tp, bp, rp []h.C13Pos
-	huge := 1
+	// at most one length >= 65536 per history, and only in 1 history out of 8
+	// (each costs ~400 permutations on the slow reference)
+	huge := 0
+	if rapid.IntRange(0, 7).Draw(t, "hugeok") == 0 {
+		huge = 1
+	}
 	newT := func() {
 		n, _ := h.C13Len(t, "app", false)
 		ops = append(ops, c13Op{K: "new", L: h.C13Content(t, "app", n)})
